@@ -365,6 +365,63 @@ fn container_leg(seed: u64) -> (u64, Vec<String>) {
                 }
             }
         }
+        // the same serialised bytes decoded into Vec, HeapBytes and Locked<HeapBytes> (JSON: no
+        // size hint, element sequence; bincode: byte string) must give identical bytes
+        for len in (0..=130usize).chain([255, 256, 257, 1024, 4096, 4097]) {
+            let m = cval(seed, 3, len);
+            let js = serde_json::to_string(&m).unwrap();
+            let bc = bincode::serialize(&m).unwrap();
+            let a: Result<Vec<u8>, _> = serde_json::from_str(&js);
+            let b: Result<HeapBytes, _> = serde_json::from_str(&js);
+            let c: Result<Locked<HeapBytes>, _> = serde_json::from_str(&js);
+            let d: Result<HeapBytes, _> = bincode::deserialize(&bc);
+            let e: Result<Locked<HeapBytes>, _> = bincode::deserialize(&bc);
+            n += 5;
+            let same = a.as_ref().ok() == Some(&m)
+                && b.as_ref().map(|x| x.as_slice() == &m[..]).unwrap_or(false)
+                && c.as_ref().map(|x| x.as_slice() == &m[..]).unwrap_or(false)
+                && d.as_ref().map(|x| x.as_slice() == &m[..]).unwrap_or(false)
+                && e.as_ref().map(|x| x.as_slice() == &m[..]).unwrap_or(false);
+            if !same {
+                bad.push(format!("decoding {} serialised bytes: Vec / HeapBytes / Locked<HeapBytes> (JSON, bincode) disagree", len));
+            }
+        }
+        // the resizable containers themselves: the same fill / resize sequence through Vec,
+        // HeapBytes and Locked<HeapBytes> must leave identical bytes (all ordered pairs of 17
+        // lengths, all ordered triples of 7)
+        {
+            let lens = [0usize, 1, 2, 3, 5, 8, 15, 16, 17, 31, 32, 33, 64, 100, 4095, 4096, 4097];
+            let small = [0usize, 1, 3, 8, 17, 64, 100];
+            let mut seqs: Vec<Vec<usize>> = vec![];
+            for &a in &lens {
+                for &b in &lens {
+                    seqs.push(vec![a, b]);
+                }
+            }
+            for &a in &small {
+                for &b in &small {
+                    for &c in &small {
+                        seqs.push(vec![a, b, c]);
+                    }
+                }
+            }
+            for sq in seqs {
+                let init = cval(seed, 3, sq[0]);
+                let mut v: Vec<u8> = init.clone();
+                let mut h = HeapBytes::from(&init[..]);
+                let mut l = HeapBytes::from_slice_into_locked(&init).unwrap();
+                for (i, &t) in sq[1..].iter().enumerate() {
+                    let fill = 0xE0u8 + i as u8;
+                    v.resize(t, fill);
+                    h.resize(t, fill);
+                    l.resize(t, fill);
+                }
+                n += 3;
+                if v != h.as_slice() || v != l.as_slice() {
+                    bad.push(format!("resize sequence {:?}: Vec / HeapBytes / Locked<HeapBytes> disagree", sq));
+                }
+            }
+        }
         // and a box made with a locked precomputed key equals the classic one
         for len in [0usize, 1, 17, 100] {
             let m = cval(seed, 3, len);
